@@ -16,7 +16,7 @@ ALU = {
     "EOR": (0x49, 0x45, 0x55, None, 0x4D, 0x5D, 0x59, 0x41, 0x51),
     "ADC": (0x69, 0x65, 0x75, None, 0x6D, 0x7D, 0x79, 0x61, 0x71),
     "STA": (None, 0x85, 0x95, None, 0x8D, 0x9D, 0x99, 0x81, 0x91),
-    "LDA": (0xA9, 0xA5, 0xB5, None, 0xAD, 0xBD, 0xB8, 0xA1, 0xB1),
+    "LDA": (0xA9, 0xA5, 0xB5, None, 0xAD, 0xBD, 0xB9, 0xA1, 0xB1),
     "CMP": (0xC9, 0xC5, 0xD5, None, 0xCD, 0xDD, 0xD9, 0xC1, 0xD1),
     "SBC": (0xE9, 0xE5, 0xF5, None, 0xED, 0xFD, 0xF9, 0xE1, 0xF1),
     "LDX": (0xA2, 0xA6, None, 0xB6, 0xAE, None, 0xBE, None, None),
@@ -95,7 +95,7 @@ def _rel(op):
     return lambda pc, v: bytes([op, v[0] & 0xff])
 
 
-def build(cmos):
+def build(cmos, wdc=False):
     forms = []
     _alu_forms(ALU, forms, cmos)
     for m, op in ACC.items():
@@ -130,12 +130,17 @@ def build(cmos):
                                   [Int(0, 255, rej_lo=False), Rel(-128, 127, 3)],
                                   (lambda op: lambda pc, v: bytes([op, v[0] & 0xff, v[1] & 0xff]))(base + 16 * n),
                                   rel=(1, lambda b: sx(b[2], 8))))
+    if wdc:
+        # W65C02S data sheet: WAI and STP
+        forms.append(Form("WAI", "WAI", [], _b1(0xCB)))
+        forms.append(Form("STP", "STP", [], _b1(0xDB)))
     return forms
 
 
 ISAS = [
-    Isa("6502", "6502", build(False), "mot", slot=8, base=0x1000,
+    Isa("6502", "6502", build(False), "mot", slot=8, base=0x1000, offsets=[0, 1, 5],
         golden=[("t_65", {"melps740": True})]),
-    Isa("65C02", "65C02", build(True), "mot", slot=8, base=0x1000,
+    Isa("65C02", "65C02", build(True), "mot", slot=8, base=0x1000, offsets=[0, 1, 5],
         golden=[("t_65", {"65c02": True})]),
+    Isa("W65C02S", "W65C02S", build(True, True), "mot", slot=8, base=0x1000, offsets=[0, 1, 5]),
 ]
